@@ -57,6 +57,10 @@ def run_paths(ctx, binary, paths, tag, timeout=1500):
         setup = [] if p["init"]["admin"] == "none" else SETUP_S1
         if p["init"].get("deleg") and p["init"]["deleg"]["B"]["r1"]["root"] != "none":
             setup = SETUP_S1 + [dict(name="Delegate", id="A", to="B", role="r1", period=1, level=1, **OWN("A"))]
+        if p["init"].get("deleg") and p["init"]["deleg"]["C"]["r1"]["root"] != "none":
+            setup = SETUP_S1 + [dict(name="AssignIds", id="A", role="r1", persons=["B"], **OWN("A")),
+                                dict(name="Delegate", id="A", to="C", role="r1", period=1, level=1, **OWN("A")),
+                                dict(name="Tick", k=1, signers=[]), dict(name="Tick", k=1, signers=[])]
         inp["paths"].append({"setup": setup, "now": p["init"]["now"], "steps": [s["act"] for s in p["steps"]]})
     fin = os.path.join(ctx.scratch, "replay-%s.in.json" % tag)
     fout = os.path.join(ctx.scratch, "replay-%s.out.ndjson" % tag)
@@ -93,8 +97,8 @@ def tlc_design(ctx, cfg):
     return r
 
 
-def tlc_asis(ctx, name, dev, inits, max_ops, modes="ModesAll", simulate=None, depth=None):
-    txt = cfg_text(inits, max_ops, modes, dev["AssignSkipsDelegated"], True, props=not simulate)
+def tlc_asis(ctx, name, dev, inits, max_ops, modes="ModesAll", simulate=None, depth=None, max_t=3):
+    txt = cfg_text(inits, max_ops, modes, dev["AssignSkipsDelegated"], True, max_t=max_t, props=not simulate)
     r = _tlccache.run(ctx, "Auth_MC", "Auth", name, txt, simulate=simulate, depth=depth, workers=1)
     if r.status != "ok" and not (simulate and r.status == "error" and not r.errors):
         ctx.infra("TLC failed on %s: %s %s %s" % (name, r.status, r.violated, r.errors[:2]))
